@@ -6,6 +6,7 @@ import (
 	"fmt"
 	"strconv"
 	"sync"
+	"sync/atomic"
 	"time"
 
 	"github.com/boz/kcache/nsname"
@@ -710,6 +711,165 @@ func e4BigCollectionCase(seed uint64, n int) Case {
 	}}
 }
 
+// e4RelistThenWatchCase: a relist turns up a LARGE difference (the watch had
+// been dead) and objects of that difference change again right after the
+// list's snapshot, so that the watch session opened at the list's version
+// delivers their events at once - while the relist's own events are (perhaps)
+// still being handed to the subscribers.  Whatever the library does in between,
+// a subscriber that replays its stream ends with the controller's cache, and
+// the stream is well-formed (no Delete of an absent key, no Create of a present
+// one).  There is no logger point inside the window: the case relies on the
+// size of the difference and on being repeated.
+func e4RelistThenWatchCase(seed uint64, n int) Case {
+	id := fmt.Sprintf("E4/relist-then-watch/%d/%d", seed, n)
+	diff := []int{2, 12, 60, 90}[n%4] // (+1 update, + up to 4 watch events: the whole burst fits every hand-off buffer)
+	return Case{ID: id, Desc: map[string]interface{}{"seed": seed, "n": n, "mode": "relist-then-watch", "difference": diff}, Bubble: true, Run: func(r *Res) {
+		rng := kit.NewRng(kit.Mix(seed, uint64(n)+4950))
+		P := 10 * time.Second
+		core := kit.NewCore(&kit.Plan{Seed: rng.U64(), PYield: []int{0, 0, 30, 100}[rng.Intn(4)]})
+		srv := kit.NewPodServer(core)
+		srv.Put(kit.Pod("n0", "a", "", map[string]string{"l": "x"}))
+		// Watch sessions never connect (what happens meanwhile is only seen by the next
+		// relist), except the one opened after a list whose snapshot was followed by
+		// changes: that one delivers exactly those changes and ends.
+		var nAfter atomic.Int32
+		var healthy atomic.Bool
+		srv.WatchPlan = func(i int) kit.WatchFault {
+			f := kit.NoWatchFault()
+			if healthy.CompareAndSwap(true, false) {
+				f.CloseAfter = int(nAfter.Load())
+			} else {
+				f.Block = true
+			}
+			return f
+		}
+		var pmu sync.Mutex
+		var pending func()
+		var firedAt atomic.Int32
+		srv.OnList = func(i int) {
+			// (called right after the snapshot of list #i was taken)
+			pmu.Lock()
+			fn := pending
+			pending = nil
+			pmu.Unlock()
+			if fn != nil {
+				healthy.Store(true)
+				fn()
+				firedAt.Store(int32(i))
+			}
+		}
+		lat := time.Duration(100+rng.Intn(400)) * time.Millisecond
+		srv.ListPlan = func(i int) kit.ListFault { return kit.ListFault{Latency: lat} } // snapshot at the START of the call
+		g, err := newCtlRig(core, srv, P, nil)
+		if err != nil {
+			r.Inc(err.Error())
+			return
+		}
+		defer g.shutdown(r, "C12")
+		sub, _ := g.ctl.Subscribe()
+		mir := startMirror("root-subscriber", sub.Events(), sub.Ready(), sub.Cache())
+		if !waitCh(g.ctl.Ready(), virtBound) {
+			r.V("C03", "never-ready", "controller not ready")
+			return
+		}
+		g.barrier()
+		s0, _ := cacheSnap(g.ctl.Cache())
+		mir.seed(s0)
+		for round := 0; round < 3; round++ {
+			// the difference: new objects (and an update of an old one), unseen by the dead watch
+			names := make([]string, 0, diff)
+			for i := 0; i < diff; i++ {
+				nm := fmt.Sprintf("r%dp%04d", round, i)
+				names = append(names, nm)
+				srv.Put(kit.Pod(fmt.Sprintf("n%d", i%2), nm, "", map[string]string{"l": "x"}))
+			}
+			srv.Put(kit.Pod("n0", "a", "", map[string]string{"l": "x", "round": strconv.Itoa(round)}))
+			// right after the next list's snapshot: some of them go away / change again
+			k := 1 + rng.Intn(3)
+			if k > diff {
+				k = diff
+			}
+			nAfter.Store(int32(k + 1))
+			firedAt.Store(0)
+			pmu.Lock()
+			pending = func() {
+				for j := 0; j < k; j++ {
+					nm := names[(len(names)-1-j*(len(names)/k))%len(names)]
+					ns := "n0"
+					if srv.Has("n1", nm) {
+						ns = "n1"
+					}
+					if j%2 == 0 {
+						srv.Delete(ns, nm)
+					} else {
+						srv.Put(kit.Pod(ns, nm, "", map[string]string{"l": "y"}))
+					}
+				}
+				srv.Put(kit.Pod("n0", "a", "", map[string]string{"l": "x", "after": strconv.Itoa(round)}))
+				r.Add("changes-right-after-a-list-snapshot", int64(k+1))
+			}
+			pmu.Unlock()
+			// wait for the list AFTER the one whose snapshot was followed by the changes
+			// ("after at most one further relist"), and a little for it to be consumed
+			relisted := false
+			for i := 0; i < 400 && !relisted; i++ {
+				time.Sleep(P / 20)
+				if f := int(firedAt.Load()); f > 0 {
+					for _, lc := range srv.Lists() {
+						if lc.N == f+1 && lc.Returned {
+							relisted = true
+						}
+					}
+				}
+			}
+			if !relisted {
+				r.V("C03", "relist-stopped", "round %d: no two further lists within 20 periods", round)
+				return
+			}
+			time.Sleep(100 * time.Millisecond)
+			g.barrier()
+			want := kit.SnapOf(srv.Objects())
+			got, _ := cacheSnap(g.ctl.Cache())
+			r.Add("post-list-checks", 1)
+			if !got.Equal(want) {
+				bad := ""
+				for key, v := range want {
+					if gv, ok := got[key]; !ok || gv != v {
+						bad += fmt.Sprintf(" %s: cache %q server %q;", key, gv, v)
+					}
+				}
+				r.V("C03", "not-converged", "round %d (difference of %d objects): two periods after the server stopped changing the cache holds %d objects, the server %d:%s lists %d watches %d", round, diff, len(got), len(want), bad, len(srv.Lists()), len(srv.Watches()))
+				return
+			}
+			if core.Overruns() == 0 {
+				r.Add("relist-then-watch-mirror-checks", 1)
+				if ms := mir.snap(); !ms.Equal(got) {
+					bad := ""
+					for key := range ms {
+						if _, ok := got[key]; !ok {
+							bad += " +" + key
+						}
+					}
+					for key, v := range got {
+						if mv, ok := ms[key]; !ok || mv != v {
+							bad += " !" + key
+						}
+					}
+					r.V("C03", "mirror-diverged", "round %d: a relist with a difference of %d objects was followed at once by watch events for some of them; replaying the subscriber's stream gives a state that differs from the controller's cache at:%s (the events do not account for the difference, or arrived out of order); last events: %s", round, diff, bad, tailEvents(mir.events(), 6))
+					return
+				}
+			}
+			if core.Overruns() == 0 {
+				mir.report(r, "C03")
+			}
+			mir.reportCacheClause(r)
+		}
+		r.Add("relist-then-watch-cases", 1)
+		r.Key(id)
+		r.Sample = map[string]interface{}{"mode": "relist-then-watch", "difference": diff, "lists": len(srv.Lists()), "watches": len(srv.Watches())}
+	}}
+}
+
 func init() {
 	register("E4", func(tier string, seed uint64) []Case {
 		var cases []Case
@@ -734,6 +894,9 @@ func init() {
 		}
 		for i := 0; i < tierPick(tier, 6, 60); i++ {
 			cases = append(cases, e4BigCollectionCase(seed, i))
+		}
+		for i := 0; i < tierPick(tier, 96, 4800); i++ {
+			cases = append(cases, e4RelistThenWatchCase(seed, i))
 		}
 		return cases
 	})
